@@ -110,8 +110,11 @@ fn explore(name: &str, mname: &str, m: &Small, thorough: bool, acc: &mut Acc) ->
     let cap_depth = 20;
     let mut closed = true;
     let mut determinism_probe = 0u64;
+    let cap_states = 4000u64;
     while !frontier.is_empty() {
-        if depth >= cap_depth {
+        // safety nets: a decoder that does carry state between frames has a state space that
+        // does not close; violations are already recorded by then
+        if depth >= cap_depth || states >= cap_states || acc.viol_total >= 200 {
             closed = false;
             break;
         }
@@ -247,7 +250,7 @@ pub fn run(run: &Run) -> i32 {
         run,
         acc,
         Coverage {
-            rule: "for each of the 36 implementations x 4 matrices: BFS over histories of decode(v, L) calls, v from a menu of ~14 (23 thorough) LLR vectors (codeword signs, single/double errors, contradiction, zeros, +-1e30, all-negative, +-1e-46, 8-bit boundary magnitudes, the historical limit-0 pair) x L in {0,1,2,6[,25]}; state key = the decoder's full derived Debug dump (every field, floats in round-trip form), so merged states are identical objects; search to closure (depth cap 20 as a safety net, reported if hit). Oracle per transition: result equals a freshly built decoder's. Non-trivial = transition from a non-initial state whose previous call was not a zero-iteration shortcut.".into(),
+            rule: "for each of the 36 implementations x 4 matrices: BFS over histories of decode(v, L) calls, v from a menu of ~14 (23 thorough) LLR vectors (codeword signs, single/double errors, contradiction, zeros, +-1e30, all-negative, +-1e-46, 8-bit boundary magnitudes, the historical limit-0 pair) x L in {0,1,2,6[,25]}; state key = the decoder's full derived Debug dump (every field, floats in round-trip form), so merged states are identical objects; search to closure (depth cap 20, 4000 states per machine and 200 violations per machine as safety nets, reported if hit). Oracle per transition: result equals a freshly built decoder's. Non-trivial = transition from a non-initial state whose previous call was not a zero-iteration shortcut.".into(),
             exhaustive: all_closed,
             extra,
             graph: Some(graph),
